@@ -420,16 +420,32 @@ Qed.
 Definition delivers (m : msg) : bool :=
   match mkind m with KApp | KLogout => true | _ => false end.
 
-Lemma dispatch_apps c m v w :
-  apps (re (dispatch c m v w)) = if v && delivers m then [m] else [].
+(* the message carries exactly the number expected now *)
+Definition seq_is_expected (m : msg) (w : world) : bool :=
+  match get_int T34 m with inl n => n =? nin w | inr _ => false end.
+
+(* the final `else` of the dispatcher: on_message only for a valid number that IS the expected number *)
+Lemma deliver_branch_unfold (m : msg) (v : bool) (w : world) :
+  (if v then (w0 <- getw ;; match get_int T34 m with
+                           | inl n => if n =? nin w0 then emit (App m) else ret tt
+                           | inr _ => ret tt end)
+   else @ret unit tt) w
+  = mkR (inl tt) w (if v && seq_is_expected m w then [App m] else []).
 Proof.
-  unfold dispatch, delivers. destruct (mkind m) eqn:Ek; rewrite ?andb_false_r; cbn [ret re apps];
+  unfold seq_is_expected. destruct v; [|reflexivity]. rewrite bind_unfold. cbn [getw rv rw re app andb].
+  destruct (get_int T34 m) as [n|x]; [|reflexivity]. destruct (n =? nin w); reflexivity.
+Qed.
+
+Lemma dispatch_apps c m v w :
+  apps (re (dispatch c m v w)) = if v && delivers m && seq_is_expected m w then [m] else [].
+Proof.
+  unfold dispatch, delivers. destruct (mkind m) eqn:Ek; rewrite ?andb_false_r; cbn [ret re apps andb];
     try reflexivity.
-  - destruct v; reflexivity.
+  - rewrite deliver_branch_unfold. cbn [re]. rewrite andb_true_r. destruct (v && seq_is_expected m w); reflexivity.
   - apply apps_nil. apply process_resend_allev; cbn; auto.
   - apply apps_nil. apply process_testrequest_allev; cbn; auto.
   - apply apps_nil. apply process_heartbeat_allev; cbn; auto.
-  - destruct v; reflexivity.
+  - rewrite deliver_branch_unfold. cbn [re]. rewrite andb_true_r. destruct (v && seq_is_expected m w); reflexivity.
 Qed.
 
 Lemma dispatch_not_resend c m v : allev not_resend (dispatch c m v).
@@ -503,7 +519,8 @@ Qed.
 
 Lemma dispatch_aw c m v w : awaiting w -> aw_or_dead (rw (dispatch c m v w)).
 Proof.
-  intros Hw. unfold dispatch. destruct (mkind m); try (left; destruct v; exact Hw); try (left; exact Hw).
+  intros Hw. unfold dispatch. destruct (mkind m); try (left; exact Hw).
+  - rewrite deliver_branch_unfold. left. exact Hw.
   - left. apply process_resend_awaiting. exact Hw.
   - apply send_msg_keeps_aw. left. exact Hw.
   - assert (Hd : forall lm, keeps aw_or_dead (disconnect c ST_DISC_BROKEN lm))
@@ -512,13 +529,15 @@ Proof.
     unfold process_heartbeat. keeps_step; [keeps_tac|]. destruct (treq a); [|keeps_tac].
     destruct (get T112 (mtags m)); [|keeps_tac]. destruct (negb _); [apply Hd|].
     apply keeps_modw. intros w1 H1. exact H1.
+  - rewrite deliver_branch_unfold. left. exact Hw.
 Qed.
 
 (* dispatch is only reached on a live connection; still, a dead one stays dead except through
    process_resend (which sets RESENDREQ_HANDLING unconditionally) *)
 Lemma dispatch_dead c m v w : dead w -> mkind m <> KResend -> dead (rw (dispatch c m v w)).
 Proof.
-  intros Hw Hk. unfold dispatch. destruct (mkind m); try congruence; try (destruct v; exact Hw); try exact Hw.
+  intros Hw Hk. unfold dispatch. destruct (mkind m); try congruence; try exact Hw.
+  - rewrite deliver_branch_unfold. exact Hw.
   - apply (send_msg_keeps_st c _ (fun s => s <= ST_DISC_BROKEN)); [stlia|exact Hw].
   - assert (keeps dead (process_heartbeat c m)) as H; [|apply H; exact Hw].
     unfold process_heartbeat. keeps_step; [keeps_tac|]. destruct (treq a); [|keeps_tac].
@@ -526,6 +545,7 @@ Proof.
     + intros w0 H0. unfold disconnect. rewrite bind_unfold. cbn [getw rv rw re].
       unfold dead in H0. destruct (st w0 <=? ST_DISC_BROKEN) eqn:E; [exact H0|lia].
     + apply keeps_modw. intros w1 H1. exact H1.
+  - rewrite deliver_branch_unfold. exact Hw.
 Qed.
 
 (* ------------------------------------------------------------------ finalize *)
@@ -609,8 +629,7 @@ Qed.
 Record pm_spec (c : cfg) (m : msg) (w : world) (r : res unit) : Prop := mkPM {
   pm_apps : apps (re r) = [] \/
             (apps (re r) = [m] /\ mkind m = KApp /\ validate_integrity c m w = VOk /\
-             exists n, get_int T34 m = inl n /\ n <= nin w /\ (n < nin w -> st w = ST_AWAITING)
-                       /\ nin (rw r) = (if n =? nin w then n + 1 else nin w));
+             get_int T34 m = inl (nin w) /\ nin (rw r) = nin w + 1);
   pm_nin : mkind m <> KSeqReset ->
            nin (rw r) = nin w \/
            (get_int T34 m = inl (nin w) /\ nin (rw r) = nin w + 1 /\ validate_integrity c m w = VOk);
@@ -664,13 +683,13 @@ Proof.
     pose proof (finalize_aw m now w2) as Fw.
     destruct r2; cbn [rv rw re]; (constructor; cbn [rv rw re]).
     1,5: (rewrite !apps_app, Pa, Da, Fa; cbn [andb app]; unfold delivers;
-      destruct (mkind m) eqn:Ek; cbn [app]; auto; try congruence;
-      right; repeat split; auto; exists n;
+      destruct (mkind m) eqn:Ek; cbn [app andb]; auto; try congruence;
+      destruct (seq_is_expected m w1) eqn:Es; cbn [app]; auto;
+      right; unfold seq_is_expected in Es; rewrite Hn in Es;
       assert (Hk : KApp <> KSeqReset) by discriminate;
-      rewrite (Pn Hk) in Hle;
+      assert (n = nin w) by (rewrite <- (Pn Hk); lia); subst n;
       repeat split; auto;
-      [ intros Hlt; eapply validate_ok_low; eauto; congruence
-      | rewrite (finalize_nin m now w2 n); [|congruence|exact Hn]; rewrite Dn, (Pn Hk); reflexivity ]).
+      rewrite (finalize_nin m now w2 (nin w)); [|congruence|exact Hn]; rewrite Dn, (Pn Hk), Z.eqb_refl; reflexivity).
     1,4: (intros Hk; rewrite (finalize_nin m now w2 n Hk Hn), Dn, (Pn Hk);
       destruct (n =? nin w) eqn:E; [|left; reflexivity];
       right; assert (n = nin w) by lia; subst n; auto).
@@ -816,12 +835,6 @@ Definition seqnum (m : msg) : option Z := match get_int T34 m with inl n => Some
 Definition delivered (s : srec) : list Z :=
   flat_map (fun m => match seqnum m with Some n => [n] | None => [] end) (apps (s_events s)).
 
-(* known-finding class D10: an application frame numbered below the expected number arrives while a
-   resend is awaited (state RESENDREQ_AWAITING) *)
-Definition D10_step (s : srec) : Prop :=
-  exists m now n, s_op s = OIn m now /\ mkind m = KApp /\ st (s_before s) = ST_AWAITING
-                  /\ get_int T34 m = inl n /\ n < nin (s_before s).
-
 (* a SequenceReset the property allows to be honoured: own number = expected, NewSeqNo not backwards *)
 Definition ok_seqreset (w : world) (m : msg) : Prop :=
   get_int T34 m = inl (nin w) /\ (forall b, get_int T36 m = inl b -> nin w <= b).
@@ -871,48 +884,63 @@ Ltac other_case c w :=
   | |- context [step c ?o w] => destruct (step_other c o w) as [Ha Hn]; [intros; discriminate|]
   end.
 
+(* one step, every start world: a delivery carries exactly the expected number, is the only one of the step, and
+   the expected number afterwards is that number + 1 *)
+Lemma step_deliver_exact c o w :
+  let s := mkS w o (step c o w) in
+  delivered s = [] \/ (delivered s = [nin w] /\ nin (s_after s) = nin w + 1).
+Proof.
+  intros s. subst s. unfold delivered, s_after, s_events. cbn [s_res s_before s_op].
+  destruct o as [m now|m|now|ds lm].
+  2-4: (other_case c w; rewrite Ha; cbn; left; reflexivity).
+  cbn [step]. destruct (pm_apps _ _ _ _ (process_message_spec c m now w)) as [Ha|[Ha [Hk [V [Hs Hn]]]]];
+    rewrite Ha; cbn; [left; reflexivity|].
+  right. unfold seqnum. rewrite Hs. cbn. auto.
+Qed.
+
 (* C04_deliver_at_most_expected, one step *)
 Lemma step_deliver_le c o w n :
   In n (delivered (mkS w o (step c o w))) -> n <= nin w.
 Proof.
-  unfold delivered, s_events. cbn [s_res].
-  destruct o as [m now|m|now|ds lm].
-  2-4: (other_case c w; rewrite Ha; cbn; tauto).
-  cbn [step]. destruct (pm_apps _ _ _ _ (process_message_spec c m now w)) as [Ha|[Ha [Hk [V [k [Hk1 [Hk2 _]]]]]]];
-    rewrite Ha; cbn; [tauto|].
-  unfold seqnum. rewrite Hk1. cbn. intros [<-|[]]. exact Hk2.
+  destruct (step_deliver_exact c o w) as [H|[H _]]; rewrite H; cbn; [tauto|]. intros [<-|[]]. lia.
 Qed.
 
-(* one step outside the classes D10 and D11 *)
-Lemma step_inorder c o w :
-  let s := mkS w o (step c o w) in
-  ~ D10_step s -> ~ D11_step c s ->
-  (delivered s = [] \/ (delivered s = [nin w] /\ nin (s_after s) = nin w + 1)) /\ nin w <= nin (s_after s).
+(* C04_no_redelivery, one step: an inbound message numbered below the expected number is never delivered *)
+Lemma step_no_redelivery c m now w n :
+  get_int T34 m = inl n -> n < nin w -> apps (re (process_message c m now w)) = [].
 Proof.
-  intros s H10 H11. subst s. unfold delivered, s_after, s_events in *. cbn [s_res s_before s_op] in *.
-  destruct o as [m now|m|now|ds lm].
-  2-4: (other_case c w; rewrite Ha, Hn; cbn; split; [left; reflexivity|lia]).
-  cbn [step].
-  pose proof (process_message_spec c m now w) as [Pa Pn _ _].
-  split.
-  - destruct Pa as [Ha|[Ha [Hk [V [k [Hk1 [Hk2 [Hk3 Hk4]]]]]]]]; rewrite Ha; cbn; [left; reflexivity|].
-    right. unfold seqnum. rewrite Hk1. cbn.
-    assert (k = nin w).
-    { destruct (Z.eq_dec k (nin w)); auto. exfalso. apply H10.
-      exists m, now, k. cbn. repeat split; auto. apply Hk3. lia. lia. }
-    subst k. rewrite Z.eqb_refl in Hk4. auto.
-  - destruct (mkind m) eqn:Ek.
-    2:{ (* SequenceReset *)
-      destruct (validate_integrity c m w) eqn:V.
-      2-4: (rewrite pm_not_ok_nin; [lia|congruence]).
-      pose proof (not_D11_ok c m now w _ H11 Ek V) as Hok.
-      destruct Hok as [Hok1 Hok2].
-      destruct (pm_seqreset c m now w (nin w) Ek Hok1) as [H|[H|[b [Hb H]]]]; try lia.
-      specialize (Hok2 b Hb). lia. }
-    all: (destruct Pn as [Pn|[_ [Pn _]]]; [congruence| |]; lia).
+  intros Hn Hlt. destruct (pm_apps _ _ _ _ (process_message_spec c m now w)) as [Ha|[_ [_ [_ [Hs _]]]]]; [exact Ha|].
+  rewrite Hs in Hn. inversion Hn. lia.
 Qed.
 
-(* the two per-step facts lifted over a history *)
+(* one step outside class D11: the expected number does not decrease *)
+Lemma step_nin_mono c o w :
+  ~ D11_step c (mkS w o (step c o w)) -> nin w <= nin (rw (step c o w)).
+Proof.
+  intros H11.
+  destruct o as [m now|m|now|ds lm].
+  2-4: (other_case c w; rewrite Hn; lia).
+  cbn [step]. pose proof (process_message_spec c m now w) as [_ Pn _ _].
+  destruct (mkind m) eqn:Ek.
+  2:{ (* SequenceReset *)
+    destruct (validate_integrity c m w) eqn:V.
+    2-4: (rewrite pm_not_ok_nin; [lia|congruence]).
+    pose proof (not_D11_ok c m now w _ H11 Ek V) as Hok.
+    destruct Hok as [Hok1 Hok2].
+    destruct (pm_seqreset c m now w (nin w) Ek Hok1) as [H|[H|[b [Hb H]]]]; try lia.
+    specialize (Hok2 b Hb). lia. }
+  all: (destruct Pn as [Pn|[_ [Pn _]]]; [congruence| |]; lia).
+Qed.
+
+(* the per-step facts lifted over a history *)
+Lemma run_deliver_exact c h : forall w,
+  Forall (fun s => delivered s = [] \/
+                   (delivered s = [nin (s_before s)] /\ nin (s_after s) = nin (s_before s) + 1)) (run c w h).
+Proof.
+  induction h as [|o h IH]; intros w; cbn [run]; constructor; [|apply IH].
+  cbn [s_before]. apply step_deliver_exact.
+Qed.
+
 Lemma run_deliver_le c h : forall w,
   Forall (fun s => forall n, In n (delivered s) -> n <= nin (s_before s)) (run c w h).
 Proof.
@@ -920,8 +948,17 @@ Proof.
   cbn [s_before]. intros n. apply step_deliver_le.
 Qed.
 
+Lemma run_no_redelivery c h : forall w,
+  Forall (fun s => forall m now n, s_op s = OIn m now -> get_int T34 m = inl n -> n < nin (s_before s) ->
+                                   apps (s_events s) = []) (run c w h).
+Proof.
+  induction h as [|o h IH]; intros w; cbn [run]; constructor; [|apply IH].
+  unfold s_events. cbn [s_before s_op s_res]. intros m now n Ho Hn Hlt. subst o. cbn [step].
+  eapply step_no_redelivery; eauto.
+Qed.
+
 Lemma run_inorder c h : forall w,
-  Forall (fun s => ~ D10_step s /\ ~ D11_step c s) (run c w h) ->
+  Forall (fun s => ~ D11_step c s) (run c w h) ->
   Forall (fun n => nin w <= n) (flat_map delivered (run c w h))
   /\ StronglySorted Z.lt (flat_map delivered (run c w h))
   /\ Forall (fun s => forall n, In n (delivered s) ->
@@ -929,9 +966,10 @@ Lemma run_inorder c h : forall w,
 Proof.
   induction h as [|o h IH]; intros w Hc; cbn [run flat_map].
   { repeat split; constructor. }
-  cbn [run] in Hc. inversion Hc as [|s l [H10 H11] Hrest]; subst.
+  cbn [run] in Hc. inversion Hc as [|s l H11 Hrest]; subst.
   destruct (IH _ Hrest) as [Ilb [Isort Iall]].
-  destruct (step_inorder c o w H10 H11) as [Hd Hmono]. unfold s_after in *. cbn [s_res] in *.
+  pose proof (step_deliver_exact c o w) as Hd. pose proof (step_nin_mono c o w H11) as Hmono.
+  unfold s_after in *. cbn [s_res] in *.
   assert (Hlb' : Forall (fun n => nin w <= n) (flat_map delivered (run c (rw (step c o w)) h))).
   { eapply Forall_impl; [|exact Ilb]. cbn. intros. lia. }
   destruct Hd as [Hd|[Hd Hn]]; rewrite Hd; cbn [app].
@@ -1024,14 +1062,6 @@ Definition kind_eqb (a b : kind) : bool :=
   | _, _ => false
   end.
 
-Definition D10_stepb (s : srec) : bool :=
-  match s_op s with
-  | OIn m _ =>
-      kind_eqb (mkind m) KApp && (st (s_before s) =? ST_AWAITING)
-      && match get_int T34 m with inl n => n <? nin (s_before s) | inr _ => false end
-  | _ => false
-  end.
-
 Definition ok_seqresetb (w : world) (m : msg) : bool :=
   match get_int T34 m with
   | inl a => (a =? nin w) && match get_int T36 m with inl b => nin w <=? b | inr _ => true end
@@ -1045,11 +1075,6 @@ Definition D11_stepb (c : cfg) (s : srec) : bool :=
       && negb (ok_seqresetb (s_before s) m)
   | _ => false
   end.
-
-Lemma D10_stepb_complete s : D10_step s -> D10_stepb s = true.
-Proof.
-  intros [m [now [n [Ho [Hk [Hs [Hn Hlt]]]]]]]. unfold D10_stepb. rewrite Ho, Hk, Hs, Hn. cbn. lia.
-Qed.
 
 Lemma ok_seqresetb_sound w m : ok_seqresetb w m = true -> ok_seqreset w m.
 Proof.
@@ -1066,13 +1091,10 @@ Proof.
 Qed.
 
 Lemma classes_forallb c l :
-  forallb (fun s => negb (D10_stepb s) && negb (D11_stepb c s)) l = true ->
-  Forall (fun s => ~ D10_step s /\ ~ D11_step c s) l.
+  forallb (fun s => negb (D11_stepb c s)) l = true -> Forall (fun s => ~ D11_step c s) l.
 Proof.
   intros H. rewrite forallb_forall in H. apply Forall_forall. intros s Hs. specialize (H s Hs).
-  apply andb_true_iff in H. destruct H as [H1 H2]. split; intros Hd.
-  - apply D10_stepb_complete in Hd. rewrite Hd in H1. discriminate.
-  - apply (D11_stepb_complete c) in Hd. rewrite Hd in H2. discriminate.
+  intros Hd. apply (D11_stepb_complete c) in Hd. rewrite Hd in H. discriminate.
 Qed.
 
 (* ------------------------------------------------------------------ concrete witnesses *)
@@ -1109,17 +1131,13 @@ Definition i_reset (seq new : Z) := OIn (mkMsg (S "4")
      (T34, z_to_dec seq); (T52, S "20230101-10:00:00.000"); (T36, z_to_dec new); (T10, S "000")]) 0.
 Definition o_logon := OSend (mkMsg (S "A") [(T98, S "0"); (T108, S "30")]).
 
-(* D10: Logon, 2, then 4 (gap: ResendRequest, RESENDREQ_AWAITING), then 2 again: delivered twice *)
+(* the former D10 witness (repaired in the code): Logon, 2, then 4 (gap: ResendRequest, RESENDREQ_AWAITING),
+   then 2 again - tolerated by the integrity check while a resend is awaited, but no longer delivered *)
 Definition h_dup := [i_logon 1; i_app 2; i_app 4; i_app 2].
-Lemma dup_delivered : flat_map delivered (run cfg0 w_acceptor h_dup) = [2; 2].
-Proof. vm_compute. reflexivity. Qed.
-
-Lemma dup_during_resend_refuted :
-  exists c w h, ~ StronglySorted Z.lt (flat_map delivered (run c w h)).
-Proof.
-  exists cfg0, w_acceptor, h_dup. rewrite dup_delivered. intros H.
-  inversion H as [|a l Hs Hf]; subst. inversion Hf as [|b l' Hlt _]; subst. lia.
-Qed.
+Lemma dup_not_redelivered :
+  flat_map delivered (run cfg0 w_acceptor h_dup) = [2]
+  /\ st (final cfg0 w_acceptor h_dup) = ST_AWAITING /\ nin (final cfg0 w_acceptor h_dup) = 3.
+Proof. repeat split; vm_compute; reflexivity. Qed.
 
 (* D11: a gap fill numbered 5 while 2 is expected moves the expected number to 7: 2, 3, 4 are skipped and
    never asked for *)
@@ -1172,7 +1190,7 @@ Qed.
    hypotheses of the partial theorems and delivering 2, 3, 4, 7 *)
 Definition h_good := [i_logon 1; i_app 2; i_app 5; i_app 3; i_app 4; i_gapfill 5 7; i_app 7].
 Lemma good_history_in_scope :
-  Forall (fun s => ~ D10_step s /\ ~ D11_step cfg0 s) (run cfg0 w_acceptor h_good)
+  Forall (fun s => ~ D11_step cfg0 s) (run cfg0 w_acceptor h_good)
   /\ flat_map delivered (run cfg0 w_acceptor h_good) = [2; 3; 4; 7]
   /\ length (resends (trace (run cfg0 w_acceptor h_good))) = 1%nat
   /\ st (final cfg0 w_acceptor h_good) = ST_ACTIVE.
